@@ -9,10 +9,6 @@ from props.c01 import rescan
 import gen as G
 
 KBOX, KCUP, KCAP = 0, 2, 3
-F2_WHAT = ("rewriting.snake_removal: find_snake selects a cap/cup pair whose types do not match "
-           "(twisted snake, e.g. Id(x.l) @ Cap(x, x.r) >> Cup(x.l, x) @ Id(x.r)); unsnake then raises "
-           "AxiomError on a well-typed diagram")
-
 
 # ------------------------------------------------------------------ building blocks
 def adj_r(x):
@@ -73,7 +69,8 @@ def corpus():
     # higher windings
     out.append(("snake-left x.rr", seq([xrr], [(cap(xrr, xr), 1), (cup(xrr, xr), 0)])))
     out.append(("snake-right x.ll", seq([xll], [(cap(xl, xll), 0), (cup(xll, xl), 1)])))
-    # F2: the twisted snakes (types of cup and cap do not match)
+    # regression for F2 (fixed by 0cc87cd): twisted snakes (types of cup and cap do not match)
+    # must simply be left in place -- no exception, nothing removed
     out.append(("twisted-left", seq([xl], [(cap(x, xr), 1), (cup(xl, x), 0)])))
     out.append(("twisted-right", seq([xr], [(cap(xl, x), 0), (cup(x, xr), 1)])))
     out.append(("twisted-left obstructed", seq([xl, y], [(cap(x, xr), 1), (k, 3), (u, 0), (cup(xl, x), 1)])))
@@ -392,19 +389,6 @@ def components(si, d):
     return len({find(i) for i in range(len(d.boxes))})
 
 
-def f2_trigger(si, d0, steps):
-    """Trigger predicate of finding F2, evaluated independently of the model: at
-    the point where the trace stops, find_snake (first cap from the top with a leg
-    running straight into the opposite leg of a cup, left leg first) selects a
-    pair whose types do not match."""
-    cur = d0
-    for s in steps:
-        if len(s.boxes) < len(cur.boxes):
-            cur = s
-    pairs = si.yankable_pairs(cur)
-    return bool(pairs) and not pairs[0][3]
-
-
 def check_steps(si, ci, functors, d0, steps, what, crosscheck=False):
     """Oracles on a list of diagrams claimed to be rewrites of d0.  Yields problems."""
     import numpy as np
@@ -474,10 +458,6 @@ def settle(rep, proof_ok):
         rep.extra["disagreements"] = dis[:20]
 
 
-def f2_listed_as_fixed():
-    return any(e.get("id") == "F2" and e.get("status") == "fixed" for e in common.load_known_findings())
-
-
 def run(tier, seed):
     try:
         common.model_entry("snake")
@@ -496,7 +476,6 @@ def run(tier, seed):
         reqs.append(request(si.NORMAL_FORM, d, left))
     answers = run_model_parallel("snake", reqs)
     functors = Functors(seed)
-    f2_fixed = f2_listed_as_fixed()
     ERRNAME = {v: k for k, v in ci.ERR.items()}
     ERRNAME.update({si.TIMEOUT: "Timeout", si.HOOK: "VerifHookError (ill-typed diagram built inside the library)",
                     100: "another exception class"})
@@ -552,6 +531,15 @@ def run(tier, seed):
         # ---- oracles on every yielded step
         for bad in check_steps(si, ci, functors, d0, rt.steps, "yielded step", crosscheck=idx % 5 == 0):
             rep.violation(bad, payload(rt_req, rt, mt))
+        # ---- regression for F2: a twisted snake is left in place
+        if "twisted" in label:
+            rep.count("twisted-regression-cases")
+            if any(len(s.boxes) != len(d0.boxes) for s in rt.steps):
+                rep.violation("a twisted (type-mismatched) cap/cup pair was removed", payload(rt_req, rt, mt))
+            if not any(not p[3] for p in si.yankable_pairs(rt.steps[-1] if rt.steps else d0)):
+                rep.violation("the twisted pair is no longer in the diagram", payload(rt_req, rt, mt))
+        if any(not p[3] for p in si.yankable_pairs(d0)):
+            rep.count("has-twisted-pair")
         # ---- how the trace ended
         st = rt.status
         rep.count("trace:" + {0: "done", si.CUT: "cut"}.get(st, ERRNAME.get(st, str(st))))
@@ -563,7 +551,7 @@ def run(tier, seed):
                               "leg of a matching cup (boxes %d and %d)" % left_over[0][:2],
                               payload(rt_req, rt, mt))
         elif st != si.CUT:
-            explain_failure(rep, si, rt_req, rt, mt, label, st, ERRNAME, f2_fixed, payload)
+            explain_failure(rep, rt_req, rt, mt, st, ERRNAME, payload)
         # ---- normal_form
         if rn.obs[0] == 0:
             rep.count("normal_form:value")
@@ -589,12 +577,8 @@ def run(tier, seed):
                 if components(si, snake_free) < 2:
                     rep.violation("NotImplementedError on a connected diagram", payload(nf_req, rn, mn))
             elif code != 7:
-                explain_failure(rep, si, nf_req, rn, mn, label, code, ERRNAME, f2_fixed, payload,
-                                steps=rt.steps, d0=d0)
+                explain_failure(rep, nf_req, rn, mn, code, ERRNAME, payload)
     settle(rep, proof_ok)
-    if rep.known and not any(f for _, _, f in rep.violations):
-        rep.notes.append("F2 met on %d request(s); minimal input: Id(x.l) @ Cap(x, x.r) >> Cup(x.l, x) @ Id(x.r)"
-                         % rep.hist.get("known:F2", 0))
     return rep.finish(
         rule="rigid diagrams given as (dom, cod, boxes, offsets), each run as the full trace of "
              "normalize(left) (cut after %d yields) and as normal_form(left): hand-written corpus (the four "
@@ -615,25 +599,16 @@ def run(tier, seed):
             "totality (no InterchangerError / IndexError from unsnake on well-typed input) is proved only for "
             "obstruction-free snakes; the general statement is kept as snake_removal_total_stmt and checked "
             "by the oracle (exception class) on every generated case",
-            "F2 (twisted snake -> AxiomError) is recognised only when the implementation's outcome equals the "
-            "bug-compatible model's and the independent trigger predicate holds",
+            "F2 (twisted snake -> AxiomError) is fixed in /repo (0cc87cd) and in the model: no known finding is "
+            "recognised any more; twisted corpus cases are regression cases (no exception, pair left in place)",
             "NotImplementedError is accepted only when the snake-free diagram has >= 2 connected components "
             "(boxes + wires between boxes)"],
         checker_cmd="make -C coq Props/C07.vo  (coqc 8.16.1, Print Assumptions parsed)")
 
 
-def explain_failure(rep, si, req, r, m, label, code, ERRNAME, f2_fixed, payload, steps=None, d0=None):
+def explain_failure(rep, req, r, m, code, ERRNAME, payload):
     """An exception other than NotImplementedError on a well-typed input: the
-    property fails on this case.  KNOWN-FINDING F2 iff the implementation's outcome
-    equals the bug-compatible model's and the twisted-snake trigger holds."""
-    steps = r.steps if steps is None else steps
-    d0 = r.diagram if d0 is None else d0
-    name = ERRNAME.get(code, str(code))
-    is_f2 = (code == 1 and not f2_fixed and freeze(r.obs) == freeze(m)
-             and f2_trigger(si, d0, steps))
-    if is_f2:
-        rep.count("known:F2")
-        rep.known_finding("F2", F2_WHAT)
-    else:
-        rep.violation("%s raised on a well-typed rigid diagram (%s)" % (
-            name, "normal_form" if req[0] == 1 else "normalize"), payload(req, r, m))
+    property fails on this case (since the repair of F2 there is no known finding
+    left for C07: an AxiomError on a twisted snake is a violation like any other)."""
+    rep.violation("%s raised on a well-typed rigid diagram (%s)" % (
+        ERRNAME.get(code, str(code)), "normal_form" if req[0] == 1 else "normalize"), payload(req, r, m))
